@@ -64,8 +64,9 @@ Lemma uninit_refuted v : fix_arity v = false -> nul_terminated (desc w_uninit) /
 Proof. all_variants v. Qed.
 Lemma type_match_refuted v : fix_tm v = false -> nul_terminated (desc w_e0) /\ parse v (desc w_e0) = Fault FLit.
 Proof. all_variants v. Qed.
-Lemma div_refuted v : nul_terminated (desc w_div) /\ parse v (desc w_div) = Fault FDiv.
-Proof. split; [apply desc_nul_terminated; vm_compute; reflexivity|]. destruct v as [a b c d]. destruct a, b, c, d; vm_compute; reflexivity. Qed.
+(* since 6af4733 the description whose level product wraps modulo 2^64 is rejected *)
+Lemma div_witness_rejected v : parse v (desc w_div) = Rej.
+Proof. destruct v as [a b c d]. destruct a, b, c, d; vm_compute; reflexivity. Qed.
 Lemma fixed_rejects_or_accepts_witnesses :
   parse Fixed (desc w_loops) <> Fault FLoops /\ parse Fixed (desc w_uninit) <> Fault FUninit /\ parse Fixed (desc w_e0) <> Fault FLit.
 Proof. repeat split; vm_compute; discriminate. Qed.
@@ -630,4 +631,71 @@ Proof.
   destruct (front v s) as [fr| |]; cbn [obind]; try congruence.
   destruct (middle (fst fr)) as [[[[lv c] tn] tg]| |]; cbn [obind]; try congruence.
   destruct (if needs_numa tn (st_nnr (fst fr)) then numa_insert v lv c else Ret (lv, c)); cbn [obind]; congruence.
+Qed.
+
+(* ================================================================== *)
+(* strtol / strtoul never step over a byte that cannot be part of a     *)
+(* number (blank, sign, alphanumeric): e.g. the ')' closing attributes  *)
+(* ================================================================== *)
+Definition stopc (c : N) : Prop := isspace c = false /\ c <> 45 /\ c <> 43 /\ digit_val c = None.
+Lemma stopc_41 : stopc 41. Proof. repeat split; discriminate. Qed.
+
+Lemma scan_le_stop pr s i j p c : scan_while pr s i = Ok j -> i <= p -> rd s p = Some c -> pr c = false -> j <= p.
+Proof.
+  intros E Hi Hp Hc. apply scan_while_spec in E. destruct E as [Hij [_ Hm]].
+  destruct (N.le_gt_cases j p) as [H|H]; [exact H|].
+  destruct (Hm p) as [b [Hb Pb]]; [lia|]. congruence.
+Qed.
+
+Lemma strto_core_le_stop s n i base p c : cstring s n -> i <= p -> rd s p = Some c -> stopc c ->
+  forall r, strto_core s i base = Ok r -> sr_end r <= p.
+Proof.
+  intros Hs Hi Hp [Hsp [H45 [H43 Hdv]]] r. unfold strto_core.
+  destruct (scan_while isspace s i) as [j0|] eqn:E0; cbn [bind]; [|discriminate].
+  pose proof (scan_le_stop _ _ _ _ _ _ E0 Hi Hp Hsp) as Hj0.
+  unfold rdr. destruct (rd s j0) as [c0'|] eqn:R0; cbn [bind]; [|discriminate].
+  set (j1 := if (c0' =? 45) || (c0' =? 43) then N.succ j0 else j0).
+  assert (Hj1 : j1 <= p).
+  { unfold j1. destruct ((c0' =? 45) || (c0' =? 43)) eqn:Es; [|exact Hj0].
+    destruct (N.eq_dec j0 p) as [->|]; [|lia]. rewrite Hp in R0. injection R0 as <-.
+    apply orb_true_iff in Es. destruct Es as [Es|Es]; apply N.eqb_eq in Es; congruence. }
+  destruct (rd s j1) as [c1'|] eqn:R1; cbn [bind]; [|discriminate].
+  assert (Hdig : forall b, is_digit_in b c = false).
+  { intros b. unfold is_digit_in. now rewrite Hdv. }
+  assert (Hc48 : c <> 48). { intros ->. discriminate. }
+  (* the prefix decision *)
+  match goal with |- context [bind ?pb _] => set (PB := pb) end.
+  assert (HPB : forall pf j2 b, PB = Ok (pf, j2, b) -> j2 <= p /\ (pf = true -> N.succ j1 <= p)).
+  { unfold PB. intros pf j2 b. destruct (N.eqb_spec c1' 48) as [->|_].
+    - assert (j1 <> p). { intros ->. rewrite Hp in R1. injection R1 as ->. congruence. }
+      destruct ((base =? 0) || (base =? 16)).
+      + destruct (rd s (N.succ j1)) as [cx|] eqn:Rx; cbn [bind]; [|discriminate].
+        destruct (N.eqb_spec (toupper cx) 88) as [Ex|_]; intros [= <- <- <-].
+        * assert (N.succ j1 <> p).
+          { intros Ep. rewrite Ep, Hp in Rx. injection Rx as <-. revert Ex Hdv. unfold toupper, digit_val, islower, isdigit, isupper.
+            destruct (N.leb_spec 97 c); destruct (N.leb_spec c 122); destruct (N.leb_spec 48 c); destruct (N.leb_spec c 57);
+            destruct (N.leb_spec 65 c); destruct (N.leb_spec c 90); cbn; intros; try discriminate; lia. }
+          split; [lia|intros _; lia].
+        * split; [lia|discriminate].
+      + intros [= <- <- <-]. split; [lia|discriminate].
+    - intros [= <- <- <-]. split; [lia|discriminate]. }
+  destruct PB as [[[pf j2] b]|] eqn:EPB; cbn [bind]; [|discriminate].
+  destruct (HPB pf j2 b eq_refl) as [Hj2 Hpf].
+  destruct (scan_while (is_digit_in b) s j2) as [je|] eqn:Ee; cbn [bind]; [|discriminate].
+  pose proof (scan_le_stop _ _ _ _ _ _ Ee Hj2 Hp (Hdig b)) as Hje.
+  destruct (je =? j2); intros [= <-]; cbn [sr_end]; [|exact Hje].
+  destruct pf; [apply Hpf; reflexivity|exact Hi].
+Qed.
+
+Lemma strtol_le_stop s n i base p c v e : cstring s n -> i <= p -> rd s p = Some c -> stopc c ->
+  strtol s i base = Ok (v, e) -> e <= p.
+Proof.
+  intros Hs Hi Hp Hc. unfold strtol. destruct (strto_core s i base) as [r|] eqn:E; cbn [bind]; [|discriminate].
+  intros [= _ <-]. eapply strto_core_le_stop; eauto.
+Qed.
+Lemma strtoul_le_stop s n i base p c v e : cstring s n -> i <= p -> rd s p = Some c -> stopc c ->
+  strtoul s i base = Ok (v, e) -> e <= p.
+Proof.
+  intros Hs Hi Hp Hc. unfold strtoul. destruct (strto_core s i base) as [r|] eqn:E; cbn [bind]; [|discriminate].
+  intros [= _ <-]. eapply strto_core_le_stop; eauto.
 Qed.
